@@ -13,8 +13,11 @@ TECHNIQUE = 'Lean 4 closed-form line theorems over a layout grammar + per-primit
 RULE = ("C02 layouts with the line of every emitted token recorded (blank lines, comments, multi-line strings, continuations, "
         "semicolons, off regions; in a share of the documents the whitespace between tokens, on otherwise empty lines, in "
         "comments, in quoted values and in off regions is any str.isspace() character other than LF - form feed, VT, FS/GS/RS/US, "
-        "NEL, NBSP, LS/PS, Unicode spaces - and lines end in CR LF), plus documents with one injected fault whose token line is known, plus unused-definition "
-        "reports of the same documents; non-trivial = document has more than one line")
+        "NEL, NBSP, LS/PS, Unicode spaces - and lines end in CR LF; in a share a backslash continuation stands in front of any word of "
+        "a value, also the first), plus documents with one injected fault whose token line is known, plus unused-definition "
+        "reports of the same documents, plus documents with one faulty $-reference (undefined, a scope, malformed, or reached "
+        "through another definition) planted at any word of any definition's value, the substitution being performed by "
+        "definition / scope resolve_variables, get(path) and fetch; non-trivial = document has more than one line")
 ASSUMPTIONS = ["the renderer's own line bookkeeping (1 + newlines emitted before the token)"]
 
 # (text, site, line offset of the faulty token from the first line of the fragment, needs_active_definition)
@@ -48,6 +51,10 @@ FAULTS = [
 # line except LF.  A share of the documents is laid out with such characters between tokens, on lines of their own, in comments,
 # in quoted values and inside switched-off regions (layout.Renderer / TreeGen `exotic=`).
 EXOTIC_RATES = [0.0, 0.0, 0.0, 0.1, 0.3]
+# "backslash continuations": besides the renderer's occasional continuation between two words, a share of the documents is
+# laid out with a continuation in front of any word of a value - also in front of the first, so that a value (of a definition
+# or of an attribute) starts on a later line than its name (layout.Renderer `spread=`)
+SPREAD_RATES = [0.0, 0.0, 0.0, 0.3, 0.6]
 
 
 def has_exotic_value(tree):
@@ -157,6 +164,225 @@ def typed_value_faults(ctx, rng, rounds):
                      "the refused alternative %r stands on line %d, the message cites line %s" % (bad, bad_line, mm.group(1)))
 
 
+# ---------------------------------------------------------------------------------------------------------------------
+# errors raised while SUBSTITUTING variables name a token too (`Undefined variable: $x`, `Not a definition: $x`, the syntax
+# errors of a `$` expression, which quote the word): they must cite the line of the word the reference is written in,
+# whatever the layout of the value around it and whichever operation performs the substitution.
+
+class env_as:
+    """os.environ replaced by a table (variable lookup falls back on the environment)"""
+    def __init__(self, table):
+        self.table = dict(table)
+
+    def __enter__(self):
+        import os
+        self.saved = os.environ
+        os.environ = self.table
+        return self
+
+    def __exit__(self, *a):
+        import os
+        os.environ = self.saved
+
+
+def _d(name, *words):
+    return {"k": "d", "name": name, "dis": False, "attrs": [], "words": [{"v": w, "q": None} if isinstance(w, str) else w for w in words]}
+
+
+def _s(name, *objs):
+    return {"k": "s", "name": name, "dis": False, "attrs": [], "objs": list(objs)}
+
+
+# (spelling of the word, site, text the message must contain, kind)
+#   zdef: a definition, zsc / zsc.zin: scopes, zz_undef: nothing, zbad: a definition whose own value holds the undefined reference
+REF_FAULTS = [
+    ("$zz_undef", "undefined_variable", "$zz_undef", "direct"),
+    ("$(zz_undef)", "undefined_variable", "$zz_undef", "direct"),
+    ("pre$zz_undef/c.log", "undefined_variable", "$zz_undef", "direct"),
+    ("$zdef/$zz_undef", "undefined_variable", "$zz_undef", "direct"),
+    ("$(.zz_undef)", "undefined_variable", "$.zz_undef", "direct"),
+    ("$zsc", "not_a_definition", "$zsc", "direct"),
+    ("$(zsc.zin)", "not_a_definition", "$zsc.zin", "direct"),
+    ("$zsc.log", "not_a_definition", "$zsc", "direct"),
+    ("$(zz", "missing_paren", '"$(zz"', "direct"),
+    ("a$", "dollar_identifier", '"a$"', "direct"),
+    ("$@x", "improper_variable_name", '"$@x"', "direct"),
+    ("$(1a)", "improper_variable_name", '"$(1a)"', "direct"),
+    ("$zbad", "undefined_variable", "$zz_undef", "chain"),
+    ("x_$(zbad)", "undefined_variable", "$zz_undef", "chain"),
+]
+
+
+def _fixup_words(words):
+    """an unquoted word cannot follow a quoted word that spans lines"""
+    multi = False
+    for w in words:
+        if multi and w["q"] is None:
+            w["q"] = '"'
+        if "\n" in w["v"]:
+            multi = True
+    return words
+
+
+def _neutral(tree):
+    """no `$` outside single quotes: the document's only faulty reference is the planted one"""
+    for n in tree:
+        if n["k"] == "d":
+            for w in n["words"]:
+                if w["q"] != "'":
+                    w["v"] = w["v"].replace("$", "S")
+        else:
+            _neutral(n["objs"])
+
+
+def _enabled_defs(tree, ipath=(), names=()):
+    for i, n in enumerate(tree):
+        if n["dis"]:
+            continue
+        if n["k"] == "d":
+            yield n, ipath + (i,), names + (n["name"],)
+        else:
+            yield from _enabled_defs(n["objs"], ipath + (i,), names + (n["name"],))
+
+
+def _kinds(tree, names=(), out=None):
+    """path -> kinds of the enabled objects written under it"""
+    out = {} if out is None else out
+    for n in tree:
+        if n["dis"]:
+            continue
+        out.setdefault(names + (n["name"],), set()).add(n["k"])
+        if n["k"] == "s":
+            _kinds(n["objs"], names + (n["name"],), out)
+    return out
+
+
+def _at(root, ipath):
+    o = root
+    for i in ipath:
+        o = o.objects[i]
+    return o
+
+
+def substitution_faults(ctx, rng, rounds):
+    tag = "subst_fault"
+    cases, reqs, impls = [], [], []
+    for _ in range(rounds):
+        if ctx.time_left() < 25:
+            break
+        exotic = rng.choice(EXOTIC_RATES)
+        tg = layout.TreeGen(rng, depth=rng.choice([0, 1, 2, 3]), exotic=exotic)
+        tree = tg.tree()
+        _neutral(tree)
+        spelling, site, named, kind = rng.choice(REF_FAULTS)
+        cands = list(_enabled_defs(tree))
+        if not cands or rng.random() < 0.2:
+            tree.append(_d(rng.choice(layout.NAMES), *tg.words()))
+            _neutral(tree[-1:])
+            cands = list(_enabled_defs(tree))
+        node, ipath, names = rng.choice(cands)
+        if rng.random() < 0.5:
+            node["words"] = node["words"] + tg.words()     # longer values: more room for continuation lines
+            _neutral([node])
+        # the planted word: unquoted or double-quoted (single-quoted words are not substituted), preceded by anything -
+        # also by references that resolve
+        at = rng.randrange(len(node["words"]))
+        for w in node["words"][:at]:
+            if rng.random() < 0.3 and "\n" not in w["v"]:
+                w["v"], w["q"] = rng.choice(["$zdef", "$zdef/a.log", "$(zdef)x"]), rng.choice([None, '"'])
+        planted = {"v": spelling, "q": rng.choice([None, None, '"', '"""'])}
+        node["words"][at] = planted
+        _fixup_words(node["words"])
+        # what the references resolve to stands first in the document
+        bad_word = planted
+        helpers = [_d("zdef", "v"), _s("zsc", _d("k", "1"), _s("zin", _d("k", "2")))]
+        if kind == "chain":
+            zb = _d("zbad", *(["w"] * rng.randint(0, 3)), {"v": "$zz_undef", "q": rng.choice([None, '"'])}, *(["w"] * rng.randint(0, 1)))
+            helpers.append(zb)
+            bad_word = zb["words"][-1] if zb["words"][-1]["v"] == "$zz_undef" else zb["words"][-2]
+        rng.shuffle(helpers)
+        tree[0:0] = helpers
+        ipath = (ipath[0] + len(helpers),) + ipath[1:]
+        r = layout.Renderer(rng, layout=rng.choice([0.0, 0.5, 1.0, 1.0]), off_regions=True, exotic=exotic,
+                            spread=rng.choice([0.0, 0.3, 0.6]))
+        text = r.render(tree)
+        want = bad_word["_line"]
+        case = {"text": text, "definition": ".".join(names), "reference": spelling, "token_line": want}
+        ctx.case((tag, text), nontrivial=text.count("\n") > 1)
+        ctx.count("subst_faults")
+        ctx.count("subst_fault_" + site)
+        for f in r.features:
+            if f in ("value_starts_on_continuation_line", "backslash_continuation"):
+                ctx.count("subst_fault_doc_with_" + f)
+        try:
+            root = freephil.parse(input_string=text)
+            lroot = freephil.parse(input_string=text, source_info="lbl")
+        except BaseException as e:
+            ctx.fail(case, "well-formed document refused: %s: %s" % (type(e).__name__, str(e)[:80]))
+            continue
+        f = layout.compare(root.objects, tree, lines=True)
+        if f:
+            ctx.fail(case, f)
+            continue
+        d = _at(root, ipath)
+        ctx.count("subst_fault_token_%s_the_line_of_the_name" % ("on" if want == line_of(d.where_str) else "NOT_on"))
+        # a master that declares just this parameter
+        mtext = "".join("%s {\n" % nm for nm in names[:-1]) + names[-1] + " = None\n.type = strings\n" + "}\n" * (len(names) - 1)
+        master = freephil.parse(input_string=mtext)
+        routes = [
+            ("definition.resolve_variables()", lambda: d.resolve_variables()),
+            ("resolve_variables() of the enclosing scope", lambda: d.primary_parent_scope.resolve_variables()),
+            ("get(path=%r)" % ".".join(names), lambda: root.get(path=".".join(names))),
+        ]
+        # (a document that also writes a definition where the master has a scope, or a scope where it has the parameter,
+        # is refused as incompatible before any value is looked at)
+        kinds = _kinds(tree)
+        if "s" not in kinds[names] and not any("d" in kinds[names[:k]] for k in range(1, len(names))):
+            routes.append(("master.fetch(source)", lambda: master.fetch(source=root)))
+            ctx.count("subst_fault_reached_by_fetch")
+        routes.append(("definition.resolve_variables() of the parse with a source label", lambda: _at(lroot, ipath).resolve_variables()))
+        msgs = []
+        with env_as({}):
+            for what, fn in routes:
+                try:
+                    fn()
+                    msgs.append(None)
+                    ctx.fail(case, "%s: the reference %s was accepted" % (what, spelling))
+                except RuntimeError as e:
+                    msg = str(e)
+                    msgs.append(msg)
+                    got_site, got_line = classify_runtime(msg)
+                    if got_site != site or named not in msg:
+                        ctx.fail(case, "%s: expected a %s error naming %s, got: %s" % (what, site, named, msg[:120]))
+                    elif got_line != want:
+                        ctx.fail(case, "%s: %s; the word holding %s starts on line %d, the message cites line %r"
+                                 % (what, msg[:100], named, want, got_line))
+                except BaseException as e:
+                    msgs.append(None)
+                    ctx.fail(case, "%s raised %s: %s" % (what, type(e).__name__, str(e)[:80]))
+            if msgs[0] is not None and msgs[-1] is not None and msgs[0].replace("input line ", "lbl, line ") != msgs[-1]:
+                ctx.fail(case, "with a source label the error reads %r, without it %r" % (msgs[-1][:120], msgs[0][:120]))
+            # correspondence: the outcome of substituting every definition of the document (error site and line)
+            defs = []
+
+            def walk(o):
+                for c in o.objects:
+                    if c.is_definition:
+                        defs.append(c)
+                    else:
+                        walk(c)
+            walk(root)
+            impl = [call_j(lambda: c.resolve_variables(), lambda x: None) for c in defs]
+        cases.append(case)
+        reqs.append(["resolve", enc(text), [], False])
+        impls.append(["ok", impl])
+        if len(cases) % 200 == 1:
+            ctx.sample(dict(case, expected_error=[site, want]))
+    if ctx.mode != "impl-only" and reqs:
+        ctx.corr("resolve", cases, reqs, impls,
+                 proj=lambda outs: [o if o[0] != "ok" else ["ok", None] for o in outs])
+
+
 def label_clause(text):
     """the source label given to the parser travels with every line: each scope, definition (enabled or `!`-disabled)
     and word, and every syntax error, cites `(label, line N)` exactly where the unlabelled parse cites `(input line N)`"""
@@ -196,11 +422,12 @@ def run(ctx):
     n = ctx.scale(1500, 40000, 8000)
     cases, reqs, impls = [], [], []
     typed_value_faults(ctx, rng, ctx.scale(300, 6000, 1200))
+    substitution_faults(ctx, rng, ctx.scale(500, 10000, 2000))
     for i in range(n):
         if ctx.time_left() < 25:
             ctx.notes.append("stopped early on time budget")
             break
-        tree, text, feats = _lay.gen_case(rng, exotic=rng.choice(EXOTIC_RATES))
+        tree, text, feats = _lay.gen_case(rng, exotic=rng.choice(EXOTIC_RATES), spread=rng.choice(SPREAD_RATES))
         nontriv = text.count("\n") > 1
         ctx.case(text, nontrivial=nontriv)
         for f in feats:
@@ -213,7 +440,8 @@ def run(ctx):
         impls.append(call_j(lambda: freephil.parse(input_string=text), obj_j))
         # one injected fault after a valid prefix
         frag, site, off = rng.choice(FAULTS)
-        prefix_tree, prefix_text, pfeats = _lay.gen_case(rng, off_regions=rng.random() < 0.5, exotic=rng.choice(EXOTIC_RATES))
+        prefix_tree, prefix_text, pfeats = _lay.gen_case(rng, off_regions=rng.random() < 0.5, exotic=rng.choice(EXOTIC_RATES),
+                                                     spread=rng.choice(SPREAD_RATES))
         if any(f.startswith("exotic_ws") for f in pfeats):
             ctx.count("fault_after_exotic_ws")
         if prefix_text and not prefix_text.endswith("\n"):
@@ -256,8 +484,81 @@ def flush(ctx, cases, reqs, impls):
             ctx.fail({"text": c["text"]}, c["fail"])
 
 
+_NAMED = None
+
+
+def subst_check(text):
+    """layout-independent reading of the substitution clause, used to shrink and to replay: None, or a description when the
+    substitution of some definition raises an error naming a token and cites a line on which no word holding that token starts"""
+    import re
+    try:
+        root = freephil.parse(input_string=text)
+    except BaseException:
+        return None
+    defs = []
+
+    def walk(o):
+        for c in o.objects:
+            if c.is_definition:
+                defs.append(c)
+            else:
+                walk(c)
+    walk(root)
+    with env_as({}):
+        for d in defs:
+            try:
+                d.resolve_variables()
+                continue
+            except RuntimeError as e:
+                msg = str(e)
+            except BaseException:
+                continue
+            site, line = classify_runtime(msg)
+            m = re.match(r"(?:Undefined variable|Not a definition): \$(\S+) \(", msg)
+            if m:
+                spellings = ["$" + m.group(1), "$(" + m.group(1) + ")"]
+                holds = lambda w: any(sp in w.value for sp in spellings)   # noqa: E731
+            elif site in ("missing_paren", "dollar_identifier", "improper_variable_name"):
+                holds = lambda w: '"%s"' % w.value in msg   # noqa: E731
+            else:
+                continue
+            at = sorted({w.line_number for c in defs for w in c.words if w.quote_token != "'" and holds(w)})
+            if line not in at:
+                return "substituting %s: %s; words holding that token start on line(s) %r" % (d.full_path(), msg[:120], at)
+    return None
+
+
+def shrink(f):
+    c = dict(f["case"])
+    if "reference" not in c or subst_check(c["text"]) is None:
+        return None
+    text = c["text"]
+    changed = True
+    while changed:
+        changed = False
+        for i in range(len(text)):     # cut the tail
+            if subst_check(text[:i]) is not None:
+                text, changed = text[:i], True
+                break
+        for size in (max(1, len(text) // 4), 8, 1):
+            i = 0
+            while i < len(text):
+                t = text[:i] + text[i + size:]
+                if subst_check(t) is not None:
+                    text, changed = t, True
+                else:
+                    i += size
+    return {"case": {"text": text, "reference": c["reference"], "shrunk_from": c["text"]}, "what": subst_check(text),
+            "finding": f.get("finding"), "model_violates": f.get("model_violates")}
+
+
 def replay(payload):
     c = payload["failure"]["case"]
     print(repr(c["text"]))
+    if "reference" in c:
+        r = subst_check(c["text"])
+        print(r or "every substitution error cites a line on which a word holding the named token starts")
+        return r is None
     print(call_j(lambda: freephil.parse(input_string=c["text"]), obj_j))
     return False
+from props._c15_findings import finding_still_fails  # noqa: E402,F401  (replays of findings D73, D74)
